@@ -1,6 +1,6 @@
 #!/bin/sh
 # Run every registered quick check on the unchanged /repo for several seeds, from a scratch copy of /verif.
-# Usage: tools/seed_sweep.sh "1 2 3" [tier]      Prints one line per (check, seed); anything but exit=0 is a defect of the check.
+# Usage: [PROPS="C01 C02"] tools/seed_sweep.sh "1 2 3" [tier]      Prints one line per (check, seed); anything but exit=0 is a defect of the check.
 SEEDS=${1:-"1 2 3"}
 TIER=${2:-quick}
 S=$(mktemp -d /tmp/verif_sweep_XXXXXX)
@@ -8,7 +8,7 @@ rsync -a --exclude .git --exclude replays /verif/ $S/verif/
 mkdir -p $S/verif/replays
 cd $S/verif
 for sd in $SEEDS; do
-  for p in $(cat harness/registered.txt); do
+  for p in ${PROPS:-$(cat harness/registered.txt)}; do
     OUT=$(VERIF_SEED=$sd ./check $p --tier $TIER 2>&1 | grep -E "^VIOLATION|tier=" | cut -c1-200)
     echo "$OUT" | grep -q "exit=0" || { echo "ALARM seed=$sd $p: $OUT"; cp replays/$p-$sd-0.json /tmp/sweep_$p-$sd.json 2>/dev/null; }
     echo "$OUT" | tail -1 | cut -c1-140
